@@ -331,7 +331,40 @@ def run_shard(shard):
                 add_violation(res, "C18:hasseb-legacy:sequence-number", f"hasseb-legacy sequence numbers from {start}: {seqs[bad[0][0] - 1:bad[0][0] + 3]}",
                               {"driver": "hasseb-legacy", "what": "seq", "start_seq": start, "bits": 16, "value": 0, "twice": False, "cls": ""})
             res["distinct"].add(("hasseb-legacy", "seq", bool(bad)))
-        sample(res, {"legacy_sequence_numbers": "700 from 5 start values"})
+        # every packet kind the legacy hasseb driver writes shares ONE sequence counter: commands interleaved with the
+        # sniffer configuration packets, all operation sequences of length <= 6 over {command, enableSniffing, disableSniffing}
+        class _Dev:
+            def __init__(self):
+                self.out = []
+
+            def write(self, data):
+                self.out.append(bytes(data))
+        for start in (0, 1, 253, 254, 255):
+            for L in range(1, 7):
+                for ops in itertools.product("cED", repeat=L):
+                    d = HL.HassebDALIUSBDriver.__new__(HL.HassebDALIUSBDriver)
+                    d.sn = start
+                    d.device = _Dev()
+                    packets = []
+                    for o in ops:
+                        if o == "c":
+                            packets.append(bytes(d.construct(Off(GearShort(1)))))
+                        else:
+                            n0 = len(d.device.out)
+                            (d.enableSniffing if o == "E" else d.disableSniffing)()
+                            packets += d.device.out[n0:]
+                    sns = [p[2] for p in packets]
+                    res["evaluations"] += 1
+                    bad = [i for i, (a, b) in enumerate(zip(sns, sns[1:])) if a == b] + [i for i, b in enumerate(sns) if not 1 <= b <= 255]
+                    cfg = [p[1] for p in packets]
+                    wrong_cfg = [i for i, (o, p) in enumerate(zip(ops, packets)) if o != "c" and (len(p) != 10 or p[0] != 0xAA or p[3] != (1 if o == "E" else 0))]
+                    if bad or wrong_cfg:
+                        add_violation(res, "C18:hasseb-legacy:sequence-number", f"hasseb-legacy from sn={start}, operations {''.join(ops)} "
+                                      f"(c = command, E/D = enable/disable sniffing): sequence numbers {sns}, packet types {cfg}",
+                                      {"driver": "hasseb-legacy", "what": "seq", "start_seq": start, "bits": 16, "value": 0, "twice": False, "cls": ""})
+                        break
+            res["distinct"].add(("hasseb-legacy", "seq-mixed"))
+        sample(res, {"legacy_sequence_numbers": "700 from 5 start values; hasseb: all operation sequences <= 6 over command / enable / disable sniffing"})
     elif k == "decode":
         _decode(res)
     return res
